@@ -621,6 +621,7 @@ func (b *popBuilder) addKilled(shape string, n int, run bool) (bool, error) {
 	}
 	b.u.Drain()
 	v.Net.SetDecider(nil)
+	lastPessPrimary, sawPrewrite := "", false
 	for _, c := range b.u.Log.Calls() {
 		if c.Client != v.ID || c.StartTS != start {
 			continue
@@ -628,6 +629,7 @@ func (b *popBuilder) addKilled(shape string, n int, run bool) (bool, error) {
 		switch q := c.Req.(type) {
 		case *kvrpcpb.PrewriteRequest:
 			t.Primary = string(q.PrimaryLock)
+			sawPrewrite = true
 			if q.UseAsyncCommit {
 				t.Async = true
 			}
@@ -635,10 +637,17 @@ func (b *popBuilder) addKilled(shape string, n int, run bool) (bool, error) {
 			if t.Primary == "" {
 				t.Primary = string(q.PrimaryLock)
 			}
+			lastPessPrimary = string(q.PrimaryLock)
 		}
 	}
 	if multi {
-		t.Primary = livePrimary // not the first statement's
+		// not the first statement's primary but the one the later statements elected: read from the wire (the client
+		// sorts the keys of a statement, so it is the smallest key of the first live statement, not live[0]); a
+		// prewrite request, if one was sent, names it as well
+		if !sawPrewrite {
+			t.Primary = lastPessPrimary
+		}
+		_ = livePrimary
 	}
 	if t.Primary == "" {
 		return true, nil // nothing reached the store
